@@ -1235,13 +1235,14 @@ SPECS["C04"]["theorems"] += [
     "Woodpile.Props.C04W.all_filled_unblocks_w",
     "Woodpile.Props.C04W.observed_bytes_immutable_w",
     "Woodpile.Props.C04W.observed_bytes_immutable_handle",
+    "Woodpile.Props.C04W.observed_bytes_immutable_unshared",
     "Woodpile.Props.C04W.slices_never_overwritten_w",
 ]
 SPECS["C04"]["level_text"] += (' Props/C04W (track wabs): the same clauses for every handle of every WOp history (vocabulary as Props/C03W). '
     'stable_prefix_has_no_hole_w / ok_iff_no_pending_w: per live handle of every reachable world (reachable_allInv), no side condition; all_filled_unblocks_w: once handle i has '
     'nothing pending, consumed ++ visible is its whole ledger; observed_bytes_immutable_w: along ANY history in which handle i is not reset (clear i, take i, drop i) - operations on and '
     'clears of other handles, arena swaps, read_n by other objects, other iovecs\' copies and backfills included - every byte of ghost i ++ visible i (indeed every byte cell of i\'s pipe) '
-    'keeps its position and value (side condition FillPrivate, as C03W); observed_bytes_immutable_handle: the same with the side condition for handle i only (no backfill through another iovec lands in memory i references - whatever other handles do to each other), and i stays live; slices_never_overwritten_w: no op but backfill changes a byte any slice of any iovec reads (no side condition).')
+    'keeps its position and value (side condition FillPrivate, as C03W); observed_bytes_immutable_handle: the same with the side condition for handle i only (no backfill through another iovec lands in memory i references - whatever other handles do to each other), and i stays live; observed_bytes_immutable_unshared: the same from a per-OBJECT premise (i references no pending placeholder memory of another iovec at the start - e.g. it is empty - and is never cloned while it has a placeholder pending; Props/C20W.unshared_preserved), nothing assumed about the rest of the world; slices_never_overwritten_w: no op but backfill changes a byte any slice of any iovec reads (no side condition).')
 SPECS["C20"]["lean_modules"] += ["Woodpile.Props.C20W"]
 SPECS["C20"]["theorems"] += [
     "Woodpile.Props.C20W.reachable_base",
@@ -1251,6 +1252,8 @@ SPECS["C20"]["theorems"] += [
     "Woodpile.Props.C20W.no_share_moves_with_take",
     "Woodpile.Props.C20W.no_share_inherited_by_clone",
     "Woodpile.Props.C20W.fill_private_of_clean_clones",
+    "Woodpile.Props.C20W.unshared_preserved",
+    "Woodpile.Props.C20W.unshared_when_empty",
     "Woodpile.Props.C20W.private_gives_no_share",
     "Woodpile.Props.C20W.independent_step_w",
     "Woodpile.Props.C20W.clone_independent_w",
